@@ -275,10 +275,7 @@ func runC33(c *Ctx) {
 			if lf == nil {
 				lf = lockFlowOf(fn)
 			}
-			locked := len(lf.before[u]) > 0
-			if !locked && fname(fn) == "(*mqtt.TopicsIndex).trim" {
-				locked = true // only called with the root lock held (C31.a)
-			}
+			locked := len(lf.before[u]) > 0 || c.calledOnlyLocked(fn, 0)
 			c.ob("C33.b guarded-by", fmt.Sprintf("%s reads particle.retainPath (written under the index lock) with a lock held", fname(fn)), c.pos(u.Pos()), locked,
 				"RetainMessage writes retainPath under the root and node locks while this reader holds none: a torn/stale string read")
 		}
@@ -286,6 +283,39 @@ func runC33(c *Ctx) {
 	// (c) publication discipline for Client fields
 	c.prePublication()
 	c.clientPublication()
+}
+
+// calledOnlyLocked: fn is a helper whose every module call site executes with some lock held, or sits in a
+// helper for which the same is true (bounded depth); at least one caller must exist.
+func (c *Ctx) calledOnlyLocked(fn *ssa.Function, depth int) bool {
+	if depth > 3 {
+		return false
+	}
+	callers := c.callers(fn)
+	if len(callers) == 0 {
+		return false
+	}
+	for _, caller := range callers {
+		lf := lockFlowOf(caller)
+		static := 0
+		for _, ins := range instrs(caller) {
+			ci, ok := ins.(ssa.CallInstruction)
+			if !ok || ci.Common().StaticCallee() != fn {
+				continue
+			}
+			static++
+			if len(lf.before[ins]) > 0 {
+				continue
+			}
+			if !c.calledOnlyLocked(caller, depth+1) {
+				return false
+			}
+		}
+		if static == 0 {
+			return false // reached through a function value or an interface: the call site's locks are unknown
+		}
+	}
+	return true
 }
 
 func (c *Ctx) reachableSet(roots ...*ssa.Function) map[*ssa.Function]bool {
